@@ -154,7 +154,14 @@ func runC06(p *core.Prog, r *core.Report) {
 				switch a.Kind {
 				case "write":
 					seenW[sx.OrigInstr(a.Instr)] = true
-					r.Check(sameFn(rootFn(ref.Fn), t.Ctor) && sx.IsFreshObject(ref.Base), "C06-R1", f.Name()+" assigned in "+fnName(ref.Fn), p.Pos(a.Instr.Pos()), "constructor, before publication", "channel field reassigned after construction")
+					fresh := sx.IsFreshObject(ref.Base)
+					if ia, isElem := ref.Base.(*ssa.IndexAddr); isElem && !fresh {
+						// an element of the slice the constructor has just made and not yet published
+						if _, made := sx.Unspill(ia.X).(*ssa.MakeSlice); made {
+							fresh = true
+						}
+					}
+					r.Check(sameFn(rootFn(ref.Fn), t.Ctor) && fresh, "C06-R1", f.Name()+" assigned in "+fnName(ref.Fn), p.Pos(a.Instr.Pos()), "constructor, before publication", "channel field reassigned after construction")
 				case "elem-write":
 					seenW[sx.OrigInstr(a.Instr)] = true
 					// filling the list in place is construction when it happens in the constructor on the fresh object
@@ -488,6 +495,84 @@ func runC06(p *core.Prog, r *core.Report) {
 					okWho = false
 					where = append(where, "go statement in "+fnName(f)+" at "+p.Pos(in.Pos()))
 				}
+			})
+		}
+		// inside the recovering frame nothing handles the task before Start: whatever panics there (a map or sync.Map
+		// keyed by the task — task types need not be hashable —, a type assertion, a method of the task) is swallowed by
+		// the frame's recover and the accepted task is silently skipped
+		for _, f := range viewFuncs(p, t.Worker) {
+			f := f
+			sx.Instrs(f, func(in ssa.Instruction) {
+				c, ok := in.(ssa.CallInstruction)
+				if !ok || !t.isStart(c) || !c.Common().IsInvoke() {
+					return
+				}
+				task := sx.Unspill(c.Common().Value)
+				var def *ssa.Defer
+				sx.Instrs(f, func(i2 ssa.Instruction) {
+					d, ok := i2.(*ssa.Defer)
+					if !ok {
+						return
+					}
+					callee := sx.StaticCallee(d)
+					if callee == nil {
+						return
+					}
+					sx.Instrs(callee, func(i3 ssa.Instruction) {
+						if cc, ok := i3.(ssa.CallInstruction); ok && isBuiltin(cc, "recover") && sx.MustPass(f, nil, in, sx.Cut{Instrs: map[ssa.Instruction]bool{d: true}}) {
+							def = d
+						}
+					})
+				})
+				if def == nil {
+					return // no recovering frame here: C14-R1 reports that
+				}
+				early := ""
+				sx.WalkFrom(f, def, sx.Cut{Instrs: map[ssa.Instruction]bool{in: true}}, func(i2 ssa.Instruction) bool {
+					if i2 == ssa.Instruction(def) || i2 == in {
+						return true
+					}
+					uses := false
+					for _, op := range i2.Operands(nil) {
+						if op == nil || *op == nil {
+							continue
+						}
+						v := *op
+						for {
+							if mi, ok := v.(*ssa.MakeInterface); ok {
+								v = mi.X
+							} else if ci, ok := v.(*ssa.ChangeInterface); ok {
+								v = ci.X
+							} else {
+								break
+							}
+						}
+						// the same variable read again is the same task
+						if sx.Unspill(v) == task || (types.Identical(v.Type(), task.Type()) && sx.ValPath(sx.Unspill(v)) == sx.ValPath(task)) {
+							uses = true
+						}
+					}
+					if !uses {
+						return true
+					}
+					switch x := i2.(type) {
+					case ssa.CallInstruction:
+						if _, isD := x.(*ssa.Defer); isD {
+							return true // runs after Start
+						}
+						if _, isB := x.Common().Value.(*ssa.Builtin); !isB && early == "" {
+							early = "call " + short(sx.CalleeName(x)) + " at " + p.Pos(i2.Pos())
+						}
+					case *ssa.MapUpdate, *ssa.Lookup, *ssa.TypeAssert:
+						if ta, isTA := x.(*ssa.TypeAssert); !isTA || !ta.CommaOk {
+							early = "operation on the task at " + p.Pos(i2.Pos())
+						}
+					case *ssa.MakeInterface:
+						// boxing alone is harmless; what receives the box is judged where it is used
+					}
+					return true
+				})
+				r.Check(early == "", "C06-R4", "recovering frame in "+fnName(f)+": nothing handles the task before Start", p.Pos(in.Pos()), "between the deferred recover and Start the task is only started", "before Start the recovering frame hands the task to "+early+": if that panics (an unhashable task type used as a key, a failing assertion) the frame's recover swallows it and the accepted task never starts")
 			})
 		}
 		r.Check(okWho, "C06-R4", "Task.Start is invoked only synchronously inside the worker goroutine", p.FuncPos(t.Worker), "single call site, no go statement reachable from the worker body", "Start can be reached outside the worker's synchronous loop: "+strings.Join(where, ", "))
